@@ -3,6 +3,9 @@
 import json, subprocess
 
 CHECKS = {
+ "C01": dict(category="exploration", technique="bounded exhaustive enumeration of statement-form x expression-form x context programs, of all short symbol strings in three embeddings and of all 1-/2-byte files, driven in-process through the public call sequence of main with panic capture and a hang watchdog; scaling ladder and option product through the binary under deadline and memory limit",
+   text="(i) 52 statement forms x ~130 expression forms (all operators, ternary, calls, arrays, accesses, tuples, anonymous components, parallel, `_`, literal alphabet incl. 0x, p, 2^256, division by zero, huge shifts; depth 2 in thorough) x 5 contexts; (ii) all strings of <=3 (4) symbols over a 30-symbol alphabet as whole file, template body and expression, all 1-byte and 4k (65k) 2-byte files; (iii) 13 recursion-prone constructs at sizes 10..300 (10^4) through the binary with 45 s / 4 GiB limits; (iv) corpus x curve spellings x levels x verbose x sarif through the binary. Oracle: no panic, no signal, termination, exit 0/1 and a summary line (exit 2 for option values the argument parser must reject).",
+   note="Closed only up to the stated lengths/depths. Two open known findings (nested array indices blow up memory; 1000 nested loops take minutes).", ref="5/C01"),
  "C02": dict(category="fault_enumeration", technique="exhaustive fault injection: every fault kind at every token position of clean base projects, through the production binary",
    text="Base projects (single file; file + include; file + -L library) x fault alphabet {invalid token, token deleted, token duplicated, unclosed comment} at every token position of the main file, plus structural faults (missing / non-UTF-8 / dangling file, missing second file, missing include, unsupported pragmas, sugar in functions, malformed sugar in templates, duplicate parameters, several mains, duplicate definitions with and without main). Oracle (a): faults whose effect is known by construction must show an error-level diagnostic and exit != 0, also under --level error; oracle (b): for every mutant without an error-level diagnostic the multiset of `analyzing ...` lines equals the definition headers found by an independent token scan.",
    note="Trusted: token scanner (mc/src/space/tokens.rs), stdout parser. Runs as root: unreadable files are represented by non-UTF-8 content and dangling symlinks.", ref="5/C02"),
@@ -27,6 +30,9 @@ CHECKS = {
  "C14": dict(category="model_checking", technique="bounded exhaustive program enumeration + static SSA audit with dominance by definition + exhaustive path exploration of the real SSA graph tracking last-written versions",
    text="Every skeleton <=3/4 statements x every assignment of a 9-atom alphabet (assign, self-update, copy, redeclare, array element updates, parameter read/write, uninitialised declaration) x conditions x initialised/uninitialised array is converted by the real into_ssa; a static audit checks single definition, phi placement, dominance of every read by its definition (dominators recomputed by definition), unversioned signals, declaration coverage; then every path (each block visited <= unroll+1 times) is walked keeping the version written last per variable: every read must name it and every phi must list the version current on the edge taken.",
    note="Trusted: mc/src/props/c14.rs audit code, refsem/dom.rs. One open known finding (phi without argument for a path on which the variable is never assigned).", ref="5/C14"),
+ "C17": dict(category="model_checking", technique="exhaustive enumeration of analysis orders (real runner, hook H3), file orders, definition orders and unrelated-definition subsets; hash seeds enumerated through a getrandom shim with each seed replayed twice",
+   text="Projects = the C03 instantiation digraphs. (a) every permutation of analyze(d) on the real runner; (b) every order of the named files through the binary; (c) every order of the definitions inside a file, findings compared position-independently (id, level, message, labelled texts); (d) every non-empty subset of three unrelated definitions added, findings of the original definitions unchanged; (e) hash seeds 0..16 (128) through the LD_PRELOAD getrandom shim, every seed run twice (byte-identical output proves the nondeterminism is owned), multisets equal across seeds.",
+   note="(e) enumerates seeds, not all iteration orders of all maps: owned and replayable but not exhaustive. Trusted: shim/getrandom.c, stdout parser.", ref="5/C17"),
  "C19": dict(category="model_checking", technique="exhaustive enumeration of all include graphs on <=3 files x spellings x named subsets x library configurations through the binary, with an in-process twin for the file library",
    text="Every adjacency matrix (self-includes, cycles, diamonds) on 1..3 files x edge spelling {plain, ./, sub/../, symlink alias, mixed} x every non-empty set of named files x library configuration {none, unresolvable, -L dir, -L file, -L dir + library file also named} + one edge retargeted to a missing file. Oracle: terminates; analysed templates = templates of named files; findings only in named files; one CS0018 per instantiated included template (included definitions inform the analysis); an unresolvable include yields an error at the include statement's line:1; each canonical file appears exactly once in the file library and the set of files read equals the reachable set.",
    note="Trusted: the include-graph model in mc/src/props/c19.rs. Graphs beyond 3 files are not explored.", ref="5/C19"),
